@@ -27,6 +27,11 @@ type Profile struct {
 	// Bulk: one burst of this many cheap entries, so that a single round (or a
 	// recovered staging bundle) uploads more than 64 tiles in parallel.
 	Bulk int `json:"bulk,omitempty"`
+	// Yield: the goroutines of the log park before every acquisition of poolMu
+	// and the scheduler decides who takes the lock first (submission against
+	// pool rotation). No admission control in these runs: narrowing the
+	// eviction victim needs a submission that runs to completion within a step.
+	Yield bool `json:"yield,omitempty"`
 
 	OpErrW     int `json:"op_err_w"`
 	CrashW     int `json:"crash_w"`
@@ -127,6 +132,11 @@ func MakeProfile(prop string, seed uint64, tier string) *Profile {
 		if r.Chance(1, 4) {
 			p.SlowW = 3
 		}
+	}
+	if (prop == "C07" || prop == "C02" || prop == "C01" || prop == "C04") && r.Chance(1, 4) {
+		p.Yield = true
+		p.PoolSize = 0
+		p.Tag += "+yield"
 	}
 	if (prop == "C04" || prop == "C03") && r.Chance(1, 16) {
 		p.Bulk = 5400 + r.Intn(1200)
